@@ -182,7 +182,8 @@ func runCase(c Case, x *ev.Ctx) error {
 	for i := 0; i < c.Signers || (needSigner && i < 1); i++ {
 		ca := pki.Root
 		if i > 0 {
-			ca = world.NewSimplePKI(fmt.Sprintf("%s extra%d", name, i), "p256b", "").Root
+			// the second trusted signer has the SAME distinguished name as the first and another key (a CA key rollover)
+			ca = world.NewSimplePKI(name, "p256b", "").Root
 		}
 		p := filepath.Join(dir, fmt.Sprintf("signer%d.pem", i))
 		os.WriteFile(p, ca.PEM(), 0o600)
@@ -190,7 +191,7 @@ func runCase(c Case, x *ev.Ctx) error {
 		f.signerDER = append(f.signerDER, ca.Cert.Raw)
 	}
 	for i := 0; i < c.Responders; i++ {
-		ca := world.NewSimplePKI(fmt.Sprintf("%s resp%d", name, i), "p256c", "").Root
+		ca := world.NewSimplePKI(name+" resp", []string{"p256c", "p256d"}[i%2], "").Root // same name, different keys
 		p := filepath.Join(dir, fmt.Sprintf("responder%d.pem", i))
 		os.WriteFile(p, ca.PEM(), 0o600)
 		f.resp = append(f.resp, p)
